@@ -15,14 +15,17 @@
 EXTENDS Integers, Sequences, FiniteSets, TLC, Json, IOUtils
 CONSTANT Depth
 
-Codes == <<5, -32601, -32097, 7001>>
+\* (-32099 is NoError: an error that carries it is an error all the same)
+Codes == <<5, -32601, -32097, 7001, -32099>>
 NoError == -32099  SystemError == -32098  Cancelled == -32097  DeadlineExceeded == -32096  InternalError == -32603
 
 Leaf(k, c) == [k |-> k, c |-> c, sub |-> <<>>]
-Leaves == [i \in 1..(4 * Len(Codes) + 3) |->
+\* (no "K" leaf for NoError: Code.Err() of it is nil, not an error)
+LeavesAll == [i \in 1..(4 * Len(Codes) + 3) |->
              IF i <= 4 * Len(Codes)
              THEN Leaf(<<"J", "K", "V", "P">>[((i - 1) \div Len(Codes)) + 1], Codes[((i - 1) % Len(Codes)) + 1])
              ELSE Leaf(<<"Can", "Dl", "Plain">>[i - 4 * Len(Codes)], 0)]
+Leaves == SelectSeq(LeavesAll, LAMBDA e : ~(e.k = "K" /\ e.c = NoError))
 
 \* trees of height <= 1 over a sequence of smaller trees T
 Grow(T) == [i \in 1..Len(T) |-> [k |-> "W", c |-> 0, sub |-> <<T[i]>>]]
@@ -59,7 +62,9 @@ FromWire(w) == IF w.code = Cancelled THEN Leaf("Can", 0)
                ELSE Leaf("J", w.code)
 
 \* the property, on the reference itself (evaluated by TLC over every tree)
+\* (one documented exception: an error that is not an *Error and whose coder says NoError travels as InternalError)
 ASSUME \A i \in 1..Len(Trees) : ErrorCode(FromWire(ToWire(Trees[i]))) = ErrorCode(Trees[i])
+                                  \/ (Trees[i].k # "J" /\ ErrorCode(Trees[i]) = NoError /\ ToWire(Trees[i]).code = InternalError)
 ASSUME \A i \in 1..Len(Trees) : ErrorCode(Trees[i]) = Cancelled => FromWire(ToWire(Trees[i])).k = "Can"
 
 Cell(e) == LET w == ToWire(e)  f == FromWire(w) IN
